@@ -228,21 +228,28 @@ open CifModel.Store in
     exists: every packet of its loop; the item is new: the container's scalar loop), for every well-formed value:
     the row the C writes passes the CHECK constraints and decodes to `v`; the call succeeds resp. — where creating the
     scalar item can fail for reasons of the store (C04) — if it succeeds, every value stored for the item is `v` and
-    get_value delivers `v` (for an existing item of a loop without packets: CIF_NOSUCH_ITEM, nothing is stored). -/
+    get_value delivers `v`.  For an existing item the two answers are separated: with `ln` the item's loop, every packet
+    (row) of the loop holds `v` afterwards; get_value answers `ok (v, _)` when the loop has a packet and CIF_NOSUCH_ITEM
+    exactly when it has none (then there is no place to store a value: the call succeeds and stores nothing — the
+    documented behaviour of an item of a packet-less loop). -/
 theorem C07_store_read (s : Store) (h : CH) (n : Name) (v : V) (hwf : wfValue parseFields v = true)
     (hv : n.valid = true) (hac : s.autocommit = true) :
     (∃ row, toColumns v = some row ∧ checks row = true ∧ fromColumns parseFields row = some v)
     ∧ (∀ l, getItemLoopInternal s.db h.id n.key = .ok l →
-        (setValue s h (some n) (some v)).2 = .ok ()
-        ∧ ((getValue (setValue s h (some n) (some v)).1 h (some n)).2 = .error Gen.ErrCodes.CIF_NOSUCH_ITEM
-            ∨ ∃ b, (getValue (setValue s h (some n) (some v)).1 h (some n)).2 = .ok (v, b)))
+        ∃ ln, s.db.loopOfItem h.id n.key = some ln
+          ∧ (setValue s h (some n) (some v)).2 = .ok ()
+          ∧ (∀ r ∈ s.db.loopRows h.id ln, (setValue s h (some n) (some v)).1.db.cell h.id n.key r = some v)
+          ∧ (s.db.loopRows h.id ln ≠ [] →
+              ∃ b, (getValue (setValue s h (some n) (some v)).1 h (some n)).2 = .ok (v, b))
+          ∧ (s.db.loopRows h.id ln = [] →
+              (getValue (setValue s h (some n) (some v)).1 h (some n)).2 = .error Gen.ErrCodes.CIF_NOSUCH_ITEM))
     ∧ (getItemLoopInternal s.db h.id n.key = .error Gen.ErrCodes.CIF_NOSUCH_ITEM →
         (setValue s h (some n) (some v)).2 = .ok () →
         ∃ b, (getValue (setValue s h (some n) (some v)).1 h (some n)).2 = .ok (v, b)) := by
   refine ⟨C07_columns_roundtrip parseFields v hwf, ?_, ?_⟩
   · intro l hl
-    have := setValue_existing_read s h n v l hv hac hl
-    exact ⟨this.1, this.2.2⟩
+    obtain ⟨ln, hln, hok, _, hcells, hsome, hnone⟩ := setValue_existing_read_strong s h n v l hv hac hl
+    exact ⟨ln, hln, hok, hcells, hsome, hnone⟩
   · intro hnew hok
     obtain ⟨hall, row, hcell⟩ := setValue_new_read s h n v hv hac hnew hok
     exact getValue_delivers _ h n v hv hall row hcell
